@@ -43,6 +43,7 @@ import (
 	"crypto/sha256"
 	"encoding/binary"
 	"fmt"
+	"os"
 	"sort"
 	"strings"
 	"time"
@@ -52,7 +53,24 @@ import (
 	u "github.com/refraction-networking/uquic/internal/verifutil"
 )
 
-func init() { units["siminitial"] = runSimInitial }
+func init() {
+	units["siminitial"] = runSimInitialParent
+	units["siminitial-one"] = runSimInitial // child process: one QUICID (only=...) per process
+}
+
+// runSimInitialParent runs every QUICID in its own process (see c10Child).
+func runSimInitialParent(w *bufio.Writer, seed uint64, n int, args []string) {
+	for _, a := range args {
+		if strings.HasPrefix(a, "only=") {
+			runSimInitial(w, seed, n, args)
+			return
+		}
+	}
+	r := u.NewRng(seed)
+	for _, name := range append(append([]string{}, parrotNames...), "token") {
+		c10Child(w, "siminitial/"+name+"/crash", "siminitial-one", fmt.Sprint(r.U64()), fmt.Sprint(n), "only="+name)
+	}
+}
 
 // ---- independent Initial opener ------------------------------------------------------
 
@@ -725,6 +743,13 @@ func c10CheckFlight(e *c10Expect, dgs [][]byte) (fails []c10Fail, pkts []*c10Pkt
 		}
 	}
 	switch {
+	case e.Truncated && e.HelloLen >= 0:
+		// a flight cut short by an error: what was sent must still be true stream bytes
+		for _, sg := range segs {
+			if int(sg.end) > e.HelloLen || !bytes.Equal(stream[sg.off:sg.end], e.Hello[sg.off:sg.end]) {
+				fail("crypto-split", "CRYPTO frame [%d,%d) does not carry the stream's bytes (stream length %d)", sg.off, sg.end, e.HelloLen)
+			}
+		}
 	case gap:
 		fail("crypto-split", "the flight's CRYPTO frames leave a gap below offset %d", end)
 	case e.HelloLen >= 0:
@@ -966,7 +991,7 @@ func runSimInitial(w *bufio.Writer, seed uint64, n int, args []string) {
 			if derived {
 				kk = "siminitial/derived/" + name + "/"
 				if r.Chance(1, 4) {
-					conf.InitialPacketSize = uint16(r.Pick(1200, 1252, 1350, 1400))
+					conf.InitialPacketSize = uint16(r.Pick(1200, 1252, 1280)) // not above 1280: see notes/C10.md (pacer busy loop, by-catch)
 					e.MaxPacket = int(conf.InitialPacketSize)
 				}
 				c10Derive(r, sp, e, e.MaxPacket)
@@ -977,6 +1002,9 @@ func runSimInitial(w *bufio.Writer, seed uint64, n int, args []string) {
 				}
 			}
 			blackhole := i%4 != 3
+			if os.Getenv("C10_DEBUG") != "" {
+				fmt.Fprintf(os.Stderr, "dial %s #%d blackhole=%v conf=%d spec{%s}\n", name, i, blackhole, conf.InitialPacketSize, c10SpecString(sp))
+			}
 			fl, err := c10Dial(sp, conf, blackhole)
 			dist["dials"]++
 			if derived {
